@@ -43,6 +43,28 @@ impl Monitor for C09 {
     }
     fn on_seal(&mut self, _w: &World, ob: &SealObs, st: &mut Stats) -> Check {
         self.survived = true;
+        // confirm() with hostile consensus proofs: wrong-length and garbage signatures, keys that are not stakers
+        {
+            use melstructs::ConsensusProof;
+            let hh = ob.sealed.header().hash();
+            let mut proofs: Vec<ConsensusProof> = vec![ConsensusProof::new()];
+            let mut p1 = ConsensusProof::new();
+            p1.insert(crate::world::pk(0), bytes::Bytes::new());
+            p1.insert(crate::world::pk(1), vec![0u8; 63].into());
+            p1.insert(tmelcrypt::Ed25519PK([0xff; 32]), vec![0xffu8; 64].into());
+            proofs.push(p1);
+            let mut p2 = ConsensusProof::new();
+            p2.insert(tmelcrypt::Ed25519PK([0; 32]), vec![0u8; 64].into());
+            p2.insert(crate::world::pk(2), crate::world::sk(2).sign(&hh.0).into());
+            p2.insert(crate::world::pk(3), vec![7u8; 4096].into());
+            proofs.push(p2);
+            for p in proofs {
+                if let Err(pi) = crate::util::catch(|| ob.sealed.confirm(p).is_some()) {
+                    return Err(Violation::new(pi.signature(), format!("confirm panicked at {}: {}", pi.location, pi.message)));
+                }
+            }
+            st.class("confirm-with-hostile-proofs");
+        }
         if ob.trace.unspecified.is_some() {
             st.class("degenerate-pool-request-sealed");
             self.hostile_reached.push("degenerate-pool-request".into());
@@ -67,6 +89,8 @@ pub fn profile() -> Profile {
     p.kind_w = [30, 10, 18, 14, 12, 6, 8, 0, 3];
     p.grandfathered_faucet = true;
     p.p_teleport = 1;
+    p.kind_w[7] = 4;
+    p.low_dosc_start = true;
     p
 }
 
